@@ -124,6 +124,33 @@ def add_computed(sym, kinds, alg):
     sym.check("digest-of-the-file-at-that-path", entry is not None and entry[1] == digest)
 
 
+def add_fails(sym, recorded_before, reason):
+    """an add that cannot compute its digest (file missing, unknown algorithm, no root directory) raises and leaves the table as
+    it was: nothing half-finished is recorded and an earlier true digest is kept"""
+    path, size = sym.symbolic_file("images/boot.iso", MIB + 2)
+    root = path[:-(len("images/boot.iso") + 1)]
+    ti = TreeInfo()
+    old = sym.str("old", 4, minlen=1, alphabet="hexlower")
+    target = "images/boot.iso" if reason != "missing" else "images/efiboot.img"
+    if recorded_before:
+        ti.checksums.add(target, "sha256", old)
+    before = dict((k, list(v)) for k, v in ti.checksums.checksums.items())
+    try:
+        if reason == "missing":
+            ti.checksums.add(target, "sha256", None, root)
+        elif reason == "algorithm":
+            ti.checksums.add(target, "no-such-hash", None, root)
+        else:
+            ti.checksums.add(target, "sha256", None, None)
+        raised = False
+    except Exception:
+        raised = True
+    sym.cover("called")
+    sym.check("the-add-fails", raised)
+    after = dict((k, list(v)) for k, v in ti.checksums.checksums.items())
+    sym.check("table-as-before", after == before)
+
+
 OPTIONS = ["images/boot.iso", "images/efiboot.img", "LiveOS/squashfs.img"]
 
 
@@ -209,6 +236,9 @@ def jobs(tier, seed):
         out.append({"harness": "digest_of_file", "params": {"alg": a, "max_size": (5 if big else 3) * MIB + 2}})
     for a in algs[:2]:
         out.append({"harness": "digest_after_rewrite", "params": {"alg": a}})
+    for rb in (False, True):
+        for reason in ("missing", "algorithm", "no-root"):
+            out.append({"harness": "add_fails", "params": {"recorded_before": rb, "reason": reason}})
     kinds = ["name", ".", "..", ""]
     import itertools
     combos = [c for n in (1, 2, 3, 4) for c in itertools.product(kinds, repeat=n) if ("name" in c or n <= 2) and c[0] != ""]
@@ -230,7 +260,7 @@ def jobs(tier, seed):
 
 
 META = {
-    "expected_covers": {"digest_after_rewrite": ["computed"], "digest_of_file": ["computed"], "add_computed": ["computed"], "add_path": ["called"], "read_section": ["read", "accepted"], "image_add_checksum": ["called"]},
+    "expected_covers": {"add_fails": ["called"], "digest_after_rewrite": ["computed"], "digest_of_file": ["computed"], "add_computed": ["computed"], "add_path": ["called"], "read_section": ["read", "accepted"], "image_add_checksum": ["called"]},
     "assumptions": [
         "compute_checksum: the file has a symbolic size up to 3 MiB + 2 (thorough 5 MiB + 2) and unmodelled content; hashlib is uninterpreted - what is decided is that the library "
         "feeds it exactly the bytes [0, size) in order, for every size (both sides of every 1 MiB chunk boundary) and for the listed algorithm names; "
